@@ -1,6 +1,7 @@
 import itertools
 from ...config import Configuration, ConfigParser
 from ...config._config_parser import _TableFormSection
+from ...config._common import ConfigurationException
 
 import sys
 
@@ -96,8 +97,13 @@ def _list_plot_item_labels(cp):
   return outlist  
 
 def _item_value(cp, key):
+  if not ":" in key:
+    raise ConfigurationException("malformed item '{}' should have the form SECTION_NAME:KEY".format(key))
   section, section_key = key.split(":",1)
-  v = cp.raw_config_parser[section][section_key]
+  raw_cp = cp.raw_config_parser
+  if not raw_cp.has_option(section, section_key):
+    raise ConfigurationException("item '{}' not found in configuration file".format(key))
+  v = raw_cp[section][section_key]
   return v 
 
 def action_list_items(cp):
